@@ -821,7 +821,7 @@ fn run() {
     });
 }
 
-fn gen_case(out: &mut Out, rng: &mut Rng, id: &str, len: usize, runs: &[(usize, usize)]) {
+fn gen_case(out: &mut Out, rng: &mut Rng, id: &str, len: usize, runs: &[(usize, usize)], gap_ms: Option<u64>) {
     out.case(id);
     let k = rng.range(1, 3) as usize;
     // few distinct prices per instrument, so that requests collide on price
@@ -852,7 +852,10 @@ fn gen_case(out: &mut Out, rng: &mut Rng, id: &str, len: usize, runs: &[(usize, 
             toks.push("R".into());
         }
     }
-    out.line(format!("data {k} {}", toks.join(" ")));
+    match gap_ms {
+        None => out.line(format!("data {k} {}", toks.join(" "))),
+        Some(gap) => out.line(format!("data_slow {gap} {k} {}", toks.join(" "))),
+    }
     let n_strats = rng.range(1, 3);
     for s in 0..n_strats {
         // the first parameterisation of every other case is passive (the repo's own example)
@@ -894,6 +897,15 @@ fn generate(seed: u64, n_cases: usize, tier: &str) {
         &[(1, 0), (1, 1), (2, 1), (2, 4), (8, 1), (8, 4), (8, 8), (2, 0)]
     };
     for c in 0..n_cases {
+        if c % 4 == 3 {
+            // a paced data source (own BacktestMarketData, tokio-time gaps, paused runtime): 3-12 Items
+            // (+ markers), total virtual duration from 0 to well beyond any plausible timeout (36 s+)
+            let len = rng.range(3, 12) as usize;
+            let gap = *rng.pick(&[0u64, 100, 700, 700, 3000, 3000]);
+            let runs = [(*rng.pick(&[1usize, 2, 8]), 0usize), (*rng.pick(&[1usize, 2]), 0usize)];
+            gen_case(&mut out, &mut rng, &format!("r{}", c + 1), len, &runs, Some(gap));
+            continue;
+        }
         // sizes: mostly small (collisions, every trigger position), regularly a dataset long enough
         // for execution responses to race the market forwarder and the Shutdown
         let len = match rng.below(10) {
@@ -911,7 +923,7 @@ fn generate(seed: u64, n_cases: usize, tier: &str) {
         if !runs.iter().any(|(n, w)| *n >= 2 && *w >= 2) {
             runs.push(if thorough && c % 4 == 0 { (32, 8) } else { (8, 4) });
         }
-        gen_case(&mut out, &mut rng, &format!("r{}", c + 1), len, &runs);
+        gen_case(&mut out, &mut rng, &format!("r{}", c + 1), len, &runs, None);
     }
     out.flush();
 }
